@@ -1293,6 +1293,9 @@ def check_converted(desc, ctx):
             r = pgp.isotherm_from_aif(path)
     finally:
         shutil.rmtree(tmp, ignore_errors=True)
+    if not isinstance(r, pygaps.PointIsotherm):
+        raise Violation(f"[{fmt}] a converted PointIsotherm ({len(x.data_raw)} points) came back as {type(r).__name__}",
+                        tag=f"converted_class:{fmt}")
     got = dict(r.units)
     if got != units:
         diff = {k: (units[k], got.get(k)) for k in units if units[k] != got.get(k)}
